@@ -16,9 +16,11 @@ static Case genParseCase(Choices &c, int tier, const char *prop, GramOpts o, int
   int maxLen = tier ? 14 : 9;
   int r = c.upto(9);
   int regime = r <= 3 ? 0 : r <= 5 ? 1 : r <= 7 ? 2 : 3;
+  if (const char *fr = getenv("VERIF_FORCE_REGIME")) regime = atoi(fr); // development only: measure one regime
   if (regime == 1) { o.maxT = std::max(o.maxT, 6); o.maxN = std::max(o.maxN, 7); o.extraRules = std::max(o.extraRules, 8); o.maxRhs = std::max(o.maxRhs, 4); maxLen = tier ? 22 : 16; }
   GramDef gd;
-  gd.raw = regime == 3 ? genSeqGrammar(c, o) : genGrammar(c, o);
+  bool seqInner = regime == 2 && (c.chance(40) || getenv("VERIF_FORCE_SEQINNER")); // a list of phrases of a sequence grammar: cores recur with other distances
+  gd.raw = (regime == 3 || seqInner) ? genSeqGrammar(c, o) : genGrammar(c, o);
   if (regime == 3) maxLen = tier ? 12 : 9;
   WrapInfo wi;
   if (regime == 2) wi = wrapList(c, gd.raw, o);
